@@ -27,6 +27,7 @@ void res_finish(void) __attribute__((noreturn));
 void res_violation(const char *cls, const char *fmt, ...) __attribute__((format(printf, 2, 3)));
 void res_infra(const char *fmt, ...) __attribute__((format(printf, 1, 2), noreturn));
 int  res_nviol(void);
+void res_emit_now(const char *line);   /* written to the parent immediately (used from fatal-signal hooks) */
 void res_progress(long idx);   /* written to the parent immediately: survives a crash of the child */
 long res_last_progress(const run_res_t *r);
 
